@@ -12,6 +12,7 @@ The node accessors and `with_*` builders of full_moon get assumed specifications
 (class A: a getter returns the field, a builder replaces exactly that field)."""
 from gen import Unit, Fn, Item, Raw, RawFile, Hole, After, Before, Loop, Between, DebugAsserts
 from common import *
+import lists as LISTS
 
 TU = "src/formatters/trivia_util.rs"
 STM = "src/formatters/stmt.rs"
@@ -53,7 +54,7 @@ pub assume_specification [FunctionDeclaration::new] (name: FunctionName) -> (r: 
 // C11: what stands between the name of a function that is being defined and its `(`
 pub open spec fn definition_space(c: Config) -> TokenType { spaces_tt(if c.space_after_function_names is Always || c.space_after_function_names is Definitions { 1 } else { 0 }) }
 // lists: the values of a punctuated list, and what the formatter has to keep of them
-pub uninterp spec fn pvals<T>(p: Punctuated<T>) -> Seq<T>;
+pub open spec fn pvals<T>(p: Punctuated<T>) -> Seq<T> { ppairs(p).map_values(|x: Pair<T>| pair_value(x)) }
 pub open spec fn name_sig(p: Punctuated<TokenReference>) -> Seq<int> { pvals(p).map_values(|t: TokenReference| tok_of(t)) }
 pub open spec fn expr_sig(p: Punctuated<Expression>) -> Seq<Skel> { pvals(p).map_values(|e: Expression| erase(skel(e))) }
 pub open spec fn exprs_wf(p: Punctuated<Expression>) -> bool { forall|i: int| 0 <= i < pvals(p).len() ==> wf(skel(#[trigger] pvals(p)[i])) }
@@ -95,10 +96,54 @@ impl GetLeadingTrivia for Punctuated<Expression> {
     #[verifier::external_body] fn leading_comments(&self) -> Vec<Token> { unimplemented!() }
 }
 // format_punctuated / format_punctuated_multiline take the item formatter as a function value: one wrapper per (list, formatter)
-#[verifier::external_body] pub fn format_names(ctx: &Context, names: &Punctuated<TokenReference>, shape: Shape, multiline: bool) -> (r: Punctuated<TokenReference>)
-    ensures name_sig(r) == name_sig(*names) { unimplemented!() /* format_punctuated[_multiline](ctx, names, shape, format_token_reference[, None]) */ }
-#[verifier::external_body] pub fn format_expressions(ctx: &Context, expressions: &Punctuated<Expression>, shape: Shape, multiline: bool) -> (r: Punctuated<Expression>)
-    requires exprs_wf(*expressions), ensures expr_sig(r) == expr_sig(*expressions) { unimplemented!() /* format_punctuated[_multiline](ctx, expressions, shape, format_expression[, None]) */ }
+// the four list-formatter calls of format_generic_for, each as a function whose body is the call itself, verified against the generic
+// contracts of format_punctuated / format_punctuated_multiline (proved in unit lists) and the item formatter's contract
+pub fn format_names_single(ctx: &Context, names: &Punctuated<TokenReference>, shape: Shape) -> (r: Punctuated<TokenReference>)
+    ensures name_sig(r) == name_sig(*names)
+{
+    let r = format_punctuated(ctx, names, shape, format_token_reference);
+    proof { assert forall|i: int| 0 <= i < ppairs(r).len() implies tok_of(pair_value(#[trigger] ppairs(r)[i])) == tok_of(pair_value(ppairs(*names)[i])) by { assert(by_item_formatter(format_token_reference, ctx, pair_value(ppairs(*names)[i]), pair_value(ppairs(r)[i]))); }
+            assert(name_sig(r) =~= name_sig(*names)); }
+    r
+}
+pub fn format_names_multi(ctx: &Context, names: &Punctuated<TokenReference>, shape: Shape) -> (r: Punctuated<TokenReference>)
+    ensures name_sig(r) == name_sig(*names)
+{
+    let r = format_punctuated_multiline(
+                ctx,
+                names,
+                shape,
+                format_token_reference,
+                None,
+            );
+    proof { assert forall|i: int| 0 <= i < ppairs(r).len() implies tok_of(pair_value(#[trigger] ppairs(r)[i])) == tok_of(pair_value(ppairs(*names)[i])) by { assert(by_item_formatter_modulo_trivia(format_token_reference, ctx, pair_value(ppairs(*names)[i]), pair_value(ppairs(r)[i]))); }
+            assert(name_sig(r) =~= name_sig(*names)); }
+    r
+}
+pub fn format_expressions_single(ctx: &Context, expressions: &Punctuated<Expression>, shape: Shape) -> (r: Punctuated<Expression>)
+    requires exprs_wf(*expressions), ensures expr_sig(r) == expr_sig(*expressions)
+{
+    proof { assert forall|i: int, s: Shape| 0 <= i < ppairs(*expressions).len() implies #[trigger] call_requires(format_expression, (ctx, &pair_value(ppairs(*expressions)[i]), s)) by { assert(wf(skel(pvals(*expressions)[i]))); } }
+    let r = format_punctuated(ctx, expressions, shape, format_expression);
+    proof { assert forall|i: int| 0 <= i < ppairs(r).len() implies erase(skel(pair_value(#[trigger] ppairs(r)[i]))) == erase(skel(pair_value(ppairs(*expressions)[i]))) by { assert(by_item_formatter(format_expression, ctx, pair_value(ppairs(*expressions)[i]), pair_value(ppairs(r)[i]))); }
+            assert(expr_sig(r) =~= expr_sig(*expressions)); }
+    r
+}
+pub fn format_expressions_multi(ctx: &Context, expressions: &Punctuated<Expression>, shape: Shape) -> (r: Punctuated<Expression>)
+    requires exprs_wf(*expressions), ensures expr_sig(r) == expr_sig(*expressions)
+{
+    proof { assert forall|i: int, s: Shape| 0 <= i < ppairs(*expressions).len() implies #[trigger] call_requires(format_expression, (ctx, &pair_value(ppairs(*expressions)[i]), s)) by { assert(wf(skel(pvals(*expressions)[i]))); } }
+    let r = format_punctuated_multiline(
+                ctx,
+                expressions,
+                shape,
+                format_expression,
+                None,
+            );
+    proof { assert forall|i: int| 0 <= i < ppairs(r).len() implies erase(skel(pair_value(#[trigger] ppairs(r)[i]))) == erase(skel(pair_value(ppairs(*expressions)[i]))) by { assert(by_item_formatter_modulo_trivia(format_expression, ctx, pair_value(ppairs(*expressions)[i]), pair_value(ppairs(r)[i]))); }
+            assert(expr_sig(r) =~= expr_sig(*expressions)); }
+    r
+}
 #[cfg(feature = "luau")] #[verifier::external_body] pub fn format_type_specifiers(ctx: &Context, generic_for: &GenericFor, shape: Shape) -> Vec<Option<full_moon::ast::luau::TypeSpecifier>> { unimplemented!() }
 #[cfg(feature = "luau")] #[verifier::external_body] pub fn type_specifiers_width(v: &Vec<Option<full_moon::ast::luau::TypeSpecifier>>) -> (r: usize) ensures r < 0x1000_0000 { unimplemented!() }
 #[cfg(feature = "luau")] pub assume_specification [GenericFor::with_type_specifiers] (n: GenericFor, v: Vec<Option<full_moon::ast::luau::TypeSpecifier>>) -> (r: GenericFor)
@@ -109,6 +154,17 @@ WF = "wf(skel({}))"
 def items():
     its = common_items()
     its += [
+        Raw(LISTS.SPEC, module="formatters::general"),
+        Fn(GEN, "format_punctuated", mode="stub", proved_in="lists", sig_edits=[Hole("T: std::fmt::Display,", "", kind="proxy", why="the Display bound is only used for a width")], contract="""
+    requires forall|i: int, s: Shape| 0 <= i < ppairs(*old).len() ==> #[trigger] value_formatter.requires((ctx, &pair_value(ppairs(*old)[i]), s)),
+    ensures ppairs(r).len() == ppairs(*old).len(),
+            forall|i: int| 0 <= i < ppairs(*old).len() ==> by_item_formatter(value_formatter, ctx, pair_value(#[trigger] ppairs(*old)[i]), pair_value(ppairs(r)[i])),
+"""),
+        Fn(GEN, "format_punctuated_multiline", mode="stub", proved_in="lists", sig_edits=[Hole("T: Node + GetLeadingTrivia", "T: VNode + GetLeadingTrivia", kind="proxy", why="proxy trait for the sealed full_moon::node::Node")], contract="""
+    requires forall|i: int, s: Shape| 0 <= i < ppairs(*old).len() ==> #[trigger] value_formatter.requires((ctx, &pair_value(ppairs(*old)[i]), s)),
+    ensures ppairs(r).len() == ppairs(*old).len(),
+            forall|i: int| 0 <= i < ppairs(*old).len() ==> by_item_formatter_modulo_trivia(value_formatter, ctx, pair_value(#[trigger] ppairs(*old)[i]), pair_value(ppairs(r)[i])),
+"""),
         Raw(SPEC), Raw(NODES), Raw(LUAU_NFOR),
         Raw("""
 impl UpdateTrivia for TokenReference2 { }
@@ -200,22 +256,22 @@ impl UpdateTrailingTrivia for FunctionBody {
             name_sig(n_gfor_names(&r)) == name_sig(n_gfor_names(generic_for)), //# C02.generic_for_keeps_header
             expr_sig(n_gfor_expressions(&r)) == expr_sig(n_gfor_expressions(generic_for)), //# C02.generic_for_keeps_header
 """, edits=[
-            Hole("format_punctuated(ctx, generic_for.names(), shape, format_token_reference)", "format_names(ctx, generic_for.names(), shape, false)", kind="wrapper", why="generic fn taking a formatter function value"),
+            Hole("format_punctuated(ctx, generic_for.names(), shape, format_token_reference)", "format_names_single(ctx, generic_for.names(), shape)", kind="wrapper", why="generic fn taking a formatter function value"),
             Hole("""format_punctuated_multiline(
                 ctx,
                 generic_for.names(),
                 shape,
                 format_token_reference,
                 None,
-            )""", "format_names(ctx, generic_for.names(), shape, true)", kind="wrapper", why="generic fn taking a formatter function value"),
-            Hole("format_punctuated(ctx, generic_for.expressions(), shape, format_expression)", "format_expressions(ctx, generic_for.expressions(), shape, false)", kind="wrapper", why="generic fn taking a formatter function value"),
+            )""", "format_names_multi(ctx, generic_for.names(), shape)", kind="wrapper", why="generic fn taking a formatter function value"),
+            Hole("format_punctuated(ctx, generic_for.expressions(), shape, format_expression)", "format_expressions_single(ctx, generic_for.expressions(), shape)", kind="wrapper", why="generic fn taking a formatter function value"),
             Hole("""format_punctuated_multiline(
                 ctx,
                 generic_for.expressions(),
                 shape,
                 format_expression,
                 None,
-            )""", "format_expressions(ctx, generic_for.expressions(), shape, true)", kind="wrapper", why="generic fn taking a formatter function value"),
+            )""", "format_expressions_multi(ctx, generic_for.expressions(), shape)", kind="wrapper", why="generic fn taking a formatter function value"),
             Between("let type_specifiers: Vec<_> = generic_for", ".collect();", "let type_specifiers = format_type_specifiers(ctx, generic_for, shape);", why="closure chain over the Luau type specifiers of the names"),
             Between("+ type_specifiers.iter().fold(0, |acc, x| {", "});", "+ type_specifiers_width(&type_specifiers);", why="fold over the printed widths of the type specifiers"),
         ]),
@@ -241,4 +297,4 @@ LABELS = {
     "C02.numeric_for_keeps_bounds": dict(props=["C02"], text="format_numeric_for: same index variable, same start / end / step expressions (modulo redundant parentheses), a step exactly where the input has one"),
 }
 
-UNIT = Unit("bodies", items() + [VERIF_MOD], LABELS, macros=[(GEN, "fmt_symbol")], header=HEADER + "use full_moon::ast::{ElseIf, FunctionName};\n")
+UNIT = Unit("bodies", items() + [VERIF_MOD], LABELS, macros=[(GEN, "fmt_symbol")], header=HEADER + "use full_moon::ast::{ElseIf, FunctionName};\nuse full_moon::ast::punctuated::Pair;\n")
